@@ -15,7 +15,7 @@ BCAST = "prelude/broadcast.rs + prelude/recv.rs: tokio::sync::broadcast — send
 TASK = "prelude/task.rs: Waker/Context/Poll stand-ins; Waker::clone returns an equal waker — ASSUMED"
 RBOX = "ReusableBoxRecvFuture (subscriber.rs:249-277 over reusable_box.rs) is a stand-in: `set` arms it with a receiver, `poll` completes per the channel contract — R-EXT; the unsafe code below it is checked by Kani under C20"
 UNIT_TRUST = {
-    "vector": [IMBL, ITERS, BCAST, STD, "R-LOCK: Sender::send/subscribe and broadcast_diff/subscribe take &mut self (sequential execution)", "R-PANIC: panic!(..) => { assert(state unchanged); diverge() }", "vector_map is R-EXT (element-wise, order-preserving map through the closure)"],
+    "vector": [IMBL, ITERS, BCAST, STD, "R-LOCK: Sender::send/subscribe and broadcast_diff/subscribe take &mut self (sequential execution)", "R-PANIC: panic!(..) => { assert(state unchanged); diverge() }"],
     "subscriber": [IMBL, BCAST, TASK, RBOX, STD, "R-PIN: self: Pin<&mut Self> => &mut self", "R-BREAKVAL: loop-with-break-value desugared", "vstd specs for Vec, vec::IntoIter (remaining() is prophetic), Option, mem::replace, unreachable_unchecked (requires false)"],
     "transaction": [IMBL, BCAST, STD, "R-MUTSELF: `fn commit(mut self)` => `fn commit(self) { let mut this = self; … }` (Verus has no `mut self`)", "R-PANIC on insert/set/remove/entry", "R-TRAIT: Drop::drop / Deref::deref of the entry types verified as inherent methods (a trait method cannot carry a precondition)", "vstd specs for Vec (push, clear, is_empty), mem::take (assume_specification)"],
     "entry": [IMBL, BCAST, STD, "R-TRAIT: Drop::drop / Deref::deref verified as inherent methods", "ObservableVector::set/remove appear with the clauses proved in unit `vector`"],
@@ -119,9 +119,9 @@ PROPS = {
         "Rust runs Drop exactly once for an entry not consumed by remove (R-TRAIT: drop/deref are verified as inherent methods); for_each's loop over a caller closure is not under contract",
         VERUS, ["for_each (while-let over a caller-supplied FnMut) is not under contract", "implicit drops are Rust's"]),
     "C18": P("proof", ["vector"], ["diffmap"],
-        "Verus proves apply(d, vec) performs the spec change for every variant whenever insert/set/remove are in range (no other stand-in precondition, i.e. no other panic, is reachable), map rebuilds each variant with the closure applied to every contained value (vector_map trusted), and the lemma: for a pure mapping, apply(map(d), map(s)) == map(apply(d, s)); identity mapping gives an equal diff.",
-        "vector_map (into_iter().map().collect()) is R-EXT; imbl panics are the stand-in's preconditions",
-        VERUS, ["vector_map is trusted (R-EXT)"]),
+        "Verus proves apply(d, vec) performs the spec change for every variant whenever insert/set/remove are in range (no other stand-in precondition, i.e. no other panic, is reachable), map rebuilds each variant with the closure applied to every contained value (vector_map verified over the iterator stand-ins), and the lemma: for a pure mapping, apply(map(d), map(s)) == map(apply(d, s)); identity mapping gives an equal diff.",
+        "iterator adapters into_iter/map/collect are assumed contracts; imbl panics are the stand-in's preconditions",
+        VERUS + "; " + BND, []),
 }
 
 NOT_APPLICABLE = {
